@@ -24,6 +24,7 @@ import DSymVerif.Proofs.DSymGenGood
 import DSymVerif.Proofs.DSymGenCensus
 import DSymVerif.Proofs.DSymGenOrient
 import DSymVerif.Proofs.DSymGenAgree
+import DSymVerif.Proofs.DSymGenBound
 import DSymVerif.Proofs.DSymGenBox
 import DSymVerif.Proofs.Delaney2dChi
 import DSymVerif.Spec.C07
@@ -679,38 +680,60 @@ theorem private_census_is_crate_census (ds : DSetData) (g : Geom) (c : Ctx) (h :
   rw [pointsVs_eq (mkCtx_wf h) hl _ (fun i hi => List.mem_range.mp hi), hdd,
     isWeaklyOriented_private hd.valid hd.connected hd.nonempty]
 
-/-- **`private_orbifold_symbol_agrees`** (open item 2 of phase 1; proved under two decidable
-    monitors): for every D-set of the domain, every admissible vector of positive curvature, if
-    `delaney2d::orbifold_symbol` is defined on the emitted symbol (its handle count 2 − χ − #boundaries
-    is not negative; C08's parity monitor is a theorem, `parityMonitor_holds`) and a symbol that is
-    not weakly oriented has at least one cross-cap (both concern only the handle / cross-cap bookkeeping of
-    `delaney2d::orbifold_symbol`; the Spec evaluates them on every positive member of the box),
-    then the generator's private `orbifold_symbol` returns `privString` — sorted cones, "*" iff a
-    mirror exists, sorted corners, "x" iff not weakly oriented —, the C08 model of
-    `delaney2d::orbifold_symbol` returns some `o`, and the private key is on the generator's list
-    **iff** `o` names (up to `SpecC08.sameOrbifold`) an orbifold of that list as read by
-    `SpecC08.parseSymbol`; so `is_good` is the Spec's spherical filter.  Ingredients: the private
-    cone/corner lists are the crate's census (`private_census_is_crate_census`), the private
-    orientation test is the trait's (`private_is_weakly_oriented`), a symbol of positive
-    curvature has no handle and at most one boundary component or cross-cap (C08's Gauss–Bonnet
-    under the monitor, `chi_pos_shape`), `trace_boundary` returns a component iff a mirror exists,
-    the two readings of the generated list agree entry by entry (`decide`), rendering is
-    injective on single-digit keys, and up to three corners every arrangement is cyclically
-    equivalent to the sorted one. -/
+/-- **`private_orbifold_symbol_agrees`** (open item 2 of phase 1, closed): for every D-set of the
+    domain and every admissible vector of positive curvature, the generator's private
+    `orbifold_symbol` returns `privString` — sorted cones, "*" iff a mirror exists, sorted corners,
+    "x" iff not weakly oriented —, the C08 model of `delaney2d::orbifold_symbol` returns some `o`
+    on the emitted symbol, and the private key is on the generator's list **iff** `o` names (up to
+    `SpecC08.sameOrbifold`) an orbifold of that list as read by `SpecC08.parseSymbol`; so `is_good`
+    is the Spec's spherical filter.  Ingredients: the private cone/corner lists are the crate's
+    census (`private_census_is_crate_census`), the private orientation test is the trait's
+    (`private_is_weakly_oriented`), C08's Gauss–Bonnet and genus theorems (the symbol is defined; a
+    symbol that is not weakly oriented has a cross-cap — Ree's inequality and the orientation
+    cover), a symbol of positive curvature has no handle and at most one boundary component or
+    cross-cap (`chi_pos_shape`), `trace_boundary` returns a component iff a mirror exists, the two
+    readings of the generated list agree entry by entry (`decide`), rendering is injective on
+    single-digit keys, and up to three corners every arrangement is cyclically equivalent to the
+    sorted one. -/
 theorem private_orbifold_symbol_agrees (ds : DSetData) (g : Geom) (c : Ctx) (h : mkCtx ds g = .ok c)
-    (hd : InDomain ds) (vs : List Nat) (ha : Adm c vs) (hpos : 0 < scaled c vs) (rep : D2.Rep)
-    (hdef : ∃ o', D2.orbifoldSymbol ⟨emittedSym c vs, rep⟩ = .ok o')
-    (hcap : ∀ o, D2.orbifoldSymbol ⟨emittedSym c vs, rep⟩ = .ok o → o.orientable = false → 1 ≤ o.count) :
+    (hd : InDomain ds) (vs : List Nat) (ha : Adm c vs) (hpos : 0 < scaled c vs) (rep : D2.Rep) :
     ∃ o, orbifoldSymbol c vs = .ok (privString c vs) ∧
       D2.orbifoldSymbol ⟨emittedSym c vs, rep⟩ = .ok o ∧
       (Tables.goodSphericalOrbifolds.contains (privString c vs) = true ↔
         SpecC07.onGoodList (D2.orbOf o) = true) ∧
       isGood c vs (scaled c vs) = .ok (SpecC07.onGoodList (D2.orbOf o)) :=
-  private_key_agrees h hd.valid hd.dim hd.far hd.connected hd.nonempty ha hpos rep hdef hcap
+  private_key_agrees h hd.valid hd.dim hd.far hd.connected hd.nonempty ha hpos rep
 
-example : ∃ c, mkCtx ex1 .all = .ok c ∧ Adm c [3, 3] ∧ 0 < scaled c [3, 3] ∧
-    (D2.orbifoldSymbol ⟨emittedSym c [3, 3], .partialSym⟩).isOk = true := by
-  refine ⟨_, rfl, ⟨by decide +kernel, by decide +kernel⟩, by decide +kernel, by decide +kernel⟩
+/-- **the emitted set in the crate's own terms** (`base_curvature ≥ 0`): a vector is emitted iff
+    it is admissible, its exact curvature — which is `delaney2d::curvature` of the emitted symbol —
+    meets the geometry's condition, it is the canonical vector of its isomorphism class, and,
+    when the curvature is positive, the orbifold named by `delaney2d::orbifold_symbol` for the
+    emitted symbol is one of the orbifolds of the generator's list. -/
+theorem dsyms_output_crate_terms (ds : DSetData) (g : Geom) (c : Ctx) (h : mkCtx ds g = .ok c)
+    (hd : InDomain ds) (hnb : ¬ c.baseCurv < 0) (vs : List Nat) :
+    Outcome.ok vs ∈ dsyms c ↔
+      Adm c vs ∧ GeomCond g c vs ∧ isCanonical c vs = .ok true ∧
+      (0 < scaled c vs → ∀ o, D2.orbifoldSymbol ⟨emittedSym c vs, .simpleSym⟩ = .ok o →
+        SpecC07.onGoodList (D2.orbOf o) = true) := by
+  rw [dsyms_output ds g c h hnb vs]
+  constructor
+  · rintro ⟨ha, hg, hgood, hcan⟩
+    refine ⟨ha, hg, hcan, fun hpos o ho => ?_⟩
+    obtain ⟨o', _, ho', _, hig⟩ := private_orbifold_symbol_agrees ds g c h hd vs ha hpos .simpleSym
+    rw [ho] at ho'
+    cases ho'
+    rw [hig] at hgood
+    exact Outcome.ok.inj hgood
+  · rintro ⟨ha, hg, hcan, hsp⟩
+    refine ⟨ha, hg, ?_, hcan⟩
+    by_cases hpos : 0 < scaled c vs
+    · obtain ⟨o', _, ho', _, hig⟩ := private_orbifold_symbol_agrees ds g c h hd vs ha hpos .simpleSym
+      rw [hig, hsp hpos o' ho']
+    · unfold isGood
+      rw [if_pos (by omega)]
+
+example : ∃ c, mkCtx ex1 .all = .ok c ∧ Adm c [3, 3] ∧ 0 < scaled c [3, 3] := by
+  refine ⟨_, rfl, ⟨by decide +kernel, by decide +kernel⟩, by decide +kernel⟩
 
 /-- the generated list, read in the generator's own format (`goodKeys`) and by
     `SpecC08.parseSymbol`, names the same orbifolds entry by entry; every entry has single-digit
@@ -723,20 +746,90 @@ theorem good_list_two_readings :
       sortDesc t.corners = t.corners :=
   ⟨goodKeys_chars, goodKeys_orbs, fun _ ht => goodKeys_valid ht⟩
 
-/-! ### open (not theorems): the statements, for the record -/
+/-- **a large branching number costs little** (C08's unconditional Gauss–Bonnet + arithmetic of
+    orbifold symbols): on every D-set of the domain, for every vector with one positive entry per
+    orbit — no upper bound —, if K(vs) ≥ 0 and `vs[i] ≥ 7` then K(vs) ≥ k_i / vs[i]: the orbit can
+    be pushed to a cusp without making the curvature negative. -/
+theorem large_branching_bound (ds : DSetData) (g : Geom) (c : Ctx) (h : mkCtx ds g = .ok c)
+    (hd : InDomain ds) (vs : List Nat) (hp : Pos c vs) (hK : 0 ≤ curvQ c vs) (i : Nat) (hi : i < c.count)
+    (h7 : 7 ≤ vs.getD i 0) : (kAt c i : ℚ) / (vs.getD i 0 : ℚ) ≤ curvQ c vs :=
+  entry_bound h hd.valid hd.dim hd.far hd.connected hd.nonempty hp hK i hi h7
 
-/-- ◐ the two monitors of `private_orbifold_symbol_agrees` hold for every admissible vector of
-    positive curvature on every D-set of the domain: definedness of delaney2d's symbol, and "not weakly oriented
-    ⇒ at least one cross-cap".  Both say that the handle / cross-cap count which
-    `delaney2d::orbifold_symbol` derives from the Euler characteristic is the topological one
-    (a closed orientable surface has even Euler characteristic; a non-orientable surface has a
-    cross-cap) — surface topology, not proved.  Evaluated by the Spec on every member of the box
-    with K > 0 and v ≤ 7 for every explored D-set (clause `oracle-genus-monitors-hold`). -/
-def genus_monitors_statement : Prop :=
-  ∀ (ds : DSetData) (g : Geom) (c : Ctx) (vs : List Nat) (rep : D2.Rep), InDomain ds →
-    mkCtx ds g = .ok c → Adm c vs → 0 < scaled c vs →
-      (∃ o', D2.orbifoldSymbol ⟨emittedSym c vs, rep⟩ = .ok o') ∧
-      ∀ o, D2.orbifoldSymbol ⟨emittedSym c vs, rep⟩ = .ok o → o.orientable = false → 1 ≤ o.count
+/-- **the bound 7 of the `for v` loop loses nothing** (the box of the property's quantifier, for
+    the model): on every D-set of the domain, among ALL branching vectors with one entry ≥ the
+    orbit's minimum per orbit (no upper bound), every euclidean one (K = 0) has all entries ≤ 6 and
+    every minimally hyperbolic one (K < 0, and K ≥ 0 after lowering any entry above its minimum by
+    one) has all entries ≤ 7 — both are admissible in the sense of `dsyms_output`. -/
+theorem all_euclidean_and_minimal_hyperbolic_admissible (ds : DSetData) (g : Geom) (c : Ctx)
+    (h : mkCtx ds g = .ok c) (hd : InDomain ds) (vs : List Nat) (hl : vs.length = c.count)
+    (hlo : ∀ i, i < c.count → c.vmins.getD i 0 ≤ vs.getD i 0) :
+    (curvQ c vs = 0 → Adm c vs ∧ ∀ i, i < c.count → vs.getD i 0 ≤ 6) ∧
+    (MinHypQ c vs → Adm c vs) := by
+  have hw := mkCtx_wf h
+  have hp : Pos c vs := ⟨hl, fun i hi => by have := hw.vminPos i hi; have := hlo i hi; omega⟩
+  have h7 : Tables.genVMax = 7 := rfl
+  constructor
+  · intro hK
+    have h6 := euclidean_le_six h hd.valid hd.dim hd.far hd.connected hd.nonempty hp hK
+    exact ⟨⟨hl, fun i hi => ⟨hlo i hi, by have := h6 i hi; omega⟩⟩, h6⟩
+  · intro hm
+    have h7' := minHyp_le_seven h hd.valid hd.dim hd.far hd.connected hd.nonempty hw hp hm
+    exact ⟨hl, fun i hi => ⟨hlo i hi, by have := h7' i hi; omega⟩⟩
+
+/-- **completeness over all assignments** (euclidean and hyperbolic clauses of C07, for the model,
+    no bound on the branching numbers): for `base_curvature ≥ 0`, every branching vector
+    whatsoever with entries ≥ the orbit minima that is euclidean (geometry Euclidean or All) resp.
+    minimally hyperbolic (geometry Hyperbolic or All) is isomorphic to exactly one emitted
+    symbol. -/
+theorem all_assignments_covered (ds : DSetData) (g : Geom) (c : Ctx) (h : mkCtx ds g = .ok c)
+    (hd : InDomain ds) (hnb : ¬ c.baseCurv < 0) (vs : List Nat) (hl : vs.length = c.count)
+    (hlo : ∀ i, i < c.count → c.vmins.getD i 0 ≤ vs.getD i 0)
+    (hcase : ((g = .euclidean ∨ g = .all) ∧ curvQ c vs = 0) ∨
+             ((g = .hyperbolic ∨ g = .all) ∧ MinHypQ c vs)) :
+    ∃ ws, (Outcome.ok ws ∈ dsyms c ∧ SymIso ds c vs ws) ∧
+      ∀ ws', Outcome.ok ws' ∈ dsyms c → SymIso ds c vs ws' → ws' = ws := by
+  have hw := mkCtx_wf h
+  obtain ⟨hE, hH⟩ := all_euclidean_and_minimal_hyperbolic_admissible ds g c h hd vs hl hlo
+  have hp := curvFac_pos
+  rcases hcase with ⟨hg, hK⟩ | ⟨hg, hm⟩
+  · obtain ⟨ha, _⟩ := hE hK
+    have hs := scaled_sign c vs (adm_bounds hw ha)
+    have hs0 : scaled c vs = 0 := hs.2.1.mpr hK
+    have hgeo : GeomCond g c vs := by
+      rcases hg with rfl | rfl
+      · exact hK
+      · exact Or.inl ⟨by rw [hK], by rw [hs0]; omega⟩
+    refine (one_symbol_per_isomorphism_class ds g c h hd hnb).2 vs ha hgeo ?_
+    unfold isGood; rw [if_pos (by omega)]
+  · have ha := hH hm
+    have hs := scaled_sign c vs (adm_bounds hw ha)
+    have hneg : scaled c vs < 0 := hs.1.mpr hm.1
+    have hgeo : GeomCond g c vs := by
+      rcases hg with rfl | rfl
+      · exact hm
+      · exact Or.inr hm
+    refine (one_symbol_per_isomorphism_class ds g c h hd hnb).2 vs ha hgeo ?_
+    unfold isGood; rw [if_pos (by omega)]
+
+/-- `base_curvature < 0` (already the all-minimal vector is hyperbolic): every vector with entries
+    ≥ the orbit minima has negative curvature — nothing euclidean or spherical exists —, the
+    all-minimal vector is minimally hyperbolic and it is the only minimally hyperbolic vector; with
+    `dsyms_output_base_negative` the generator emits exactly it for Hyperbolic / All and nothing
+    otherwise. -/
+theorem base_negative_complete (ds : DSetData) (g : Geom) (c : Ctx) (h : mkCtx ds g = .ok c)
+    (hb : c.baseCurv < 0) (vs : List Nat) (hl : vs.length = c.count)
+    (hlo : ∀ i, i < c.count → c.vmins.getD i 0 ≤ vs.getD i 0) :
+    curvQ c vs < 0 ∧ MinHypQ c c.vmins ∧ (MinHypQ c vs → vs = c.vmins) :=
+  base_negative_all (mkCtx_wf h) hb vs hl hlo
+
+/-- **every degree at least 3**: on every orbit of an admissible (in particular: emitted) vector
+    the degree m = r · v is ≥ 3 -/
+theorem every_degree_ge_three (ds : DSetData) (g : Geom) (c : Ctx) (h : mkCtx ds g = .ok c)
+    (hd : InDomain ds) (vs : List Nat) (ha : Adm c vs) (k : Nat) (hk : k < c.count) :
+    3 ≤ c.rs.getD k 0 * vs.getD k 0 :=
+  degrees_ge_three h hd.valid ha k hk
+
+/-! ### open (not theorems): the statements, for the record -/
 
 /-- ◐ the Spec's own curvature of the same assignment (orbits by naive closure) is the same number
     (`curvQ_is_model_curvature` identifies `curvQ` with the crate's curvature model and the chamber
@@ -748,9 +841,11 @@ def curvQ_is_spec_curvature_statement : Prop :=
       (SpecC07.curvature ds.size (SpecC07.orbits (symOf ds c vs))
         (SpecC07.assignmentOf (SpecC07.orbits (symOf ds c vs)) (symOf ds c vs))).val = curvQ c vs
 
-/-- ○ the premise of `box_suffices` holds for every D-set of the domain (classification of the
-    2-orbifolds with K ≥ 0: only the infinite families and the bad orbifolds carry orders ≥ 8).
-    Evaluated by the Spec for every explored D-set (`oracle-box-premise-holds`). -/
+/-- ○ the premise of `box_suffices`, a statement about the Spec's own curvature function, holds for
+    every D-set of the domain.  For the model the content is proved
+    (`all_euclidean_and_minimal_hyperbolic_admissible`); for the Spec's oracle it would in addition
+    need `curvQ_is_spec_curvature_statement`.  Evaluated by the Spec for every explored D-set
+    (`oracle-box-premise-holds`). -/
 def box_premise_statement : Prop :=
   ∀ (g : SpecC03.Sym), SpecC07.inDomain g = true →
     SpecC07.candPremise g.size (SpecC07.orbits g)
